@@ -240,11 +240,6 @@ package dastard
 //@ pred ChanTablesOK(ds *AnySource) := ds.channelsPerPixel > 0 && len(ds.rowColCodes) == len(ds.processors) && len(ds.chanNumbers) == len(ds.processors) && len(ds.chanNames) == len(ds.processors) && len(ds.subframeOffsets) == len(ds.processors)
 
 //@ ufunc hasprojectors(p *mat.Dense) bool
-//@ func (*DataStreamProcessor).HasProjectors
-//@   props C06
-//@   ensures result ==> dsp.projectors != nil
-//@   modifies nothing
-
 //@ func (RowColCode).row
 //@   props C19
 //@   ensures result == (c / 1) % 65536
